@@ -1,15 +1,109 @@
 -------------------------- MODULE LcRemoteListing --------------------------
+(* C07, listing clause, remote part - design model of the lifecycle listing that `adlt remote` sends to its clients
+   (src/bin/adlt/remote.rs process_file_context: entries carry `start_time: lc.resume_start_time()` and the list is sorted
+   with sort_unstable_by on that value; src/lifecycle/mod.rs Lifecycle::resume_start_time; the client sorts by it, too).
+
+   Design = the lifecycle detector model (LcDetector.tla: which lifecycles exist at the end of a stream, their start
+   estimates and resume links) composed with
+
+     the key   Key(lc) = resume_start_time as a function of the lifecycle's resume chain, a pair <<ticks, microseconds>>
+               (1 tick = 1 s in the concretisation; the code adds 1 us, which is far below the grid):
+                 Key(lc) = <<start(lc), 0>>                                  lc resumes nothing
+                         = Max(<<start(lc), 0>>, Key(origin(lc)) + 1 us)     lc resumes origin(lc)        (ChainKey = TRUE)
+               ChainKey = FALSE is the code as it is at the pinned tree: the comparison and the "+ 1 us" use the START
+               ESTIMATE of the origin, not its key:
+                 Key(lc) = IF start(lc) <= start(origin) THEN <<start(origin), 1>> ELSE <<start(lc), 0>>
+               (the two agree unless the origin is itself a resume lifecycle whose key was lifted);
+     the listing = the listed lifecycles (at least one message that is not a control request) sorted by the key; equal keys
+               may come in ANY order (unstable sort over a hash map's iteration order), so `Listings` is the set of all
+               sequences that are sorted by the key.
+
+   The property on the model (invariants at the end of every bounded stream):
+     ListingExists       there is a listing, and every listing is a permutation of the table (each lifecycle exactly once);
+     KeyIsStartIfNoResume a lifecycle that resumes nothing is listed under its start estimate;
+     ChainStrict         the keys strictly increase along every resume chain (also transitively) - which is what makes
+     ResumedAfterOrigin  EVERY listing (every tie-breaking of equal keys) place a resumed lifecycle after the one it resumes;
+     NoResumeByStart     without a resume every listing is ordered by start estimate;
+     OriginStable        (modelling fact the contract relies on) the lifecycle a resume lifecycle resumes never changes after
+                         the resume lifecycle was created: its start estimate is the one remembered in the resume link.
+   With ChainKey = FALSE TLC refutes ChainStrict / ResumedAfterOrigin with four messages (config LcRemoteListing_asis.cfg):
+   (rx, ts) = (1000,0) (1011,0) (1011,30) (1022,30): lifecycle 2 resumes 1 and is lifted to 1000 s + 1 us, lifecycle 3 resumes 2
+   with start estimate 992 s > 981 s = start estimate of 2, so it keeps the key 992 s and is listed before 2 (and before 1).
+   `KfShape` is the exact shape of that deviation.                                                                      *)
 EXTENDS LcDetector
 
-Listed(lc) == lc.nr > lc.nrCtrl
+CONSTANT ChainKey
+
+Listed(lc) == lc.nr > lc.nrCtrl                       \* not only control requests (those are never sent)
 Table == {lc \in AllLcs : Listed(lc)}
 IsRes(lc) == lc.res.id # 0
-Adj(lc) == IsRes(lc) /\ lc.start <= lc.res.start
-Key(lc) == IF Adj(lc) THEN <<lc.res.start, 1>> ELSE <<lc.start, 0>>
-KeyLess(a, b) == a[1] < b[1] \/ (a[1] = b[1] /\ a[2] < b[2])
-HasOrigin(lc) == IsRes(lc) /\ \E o \in Table : o.id = lc.res.id
-OriginOf(lc) == CHOOSE o \in Table : o.id = lc.res.id
+HasOrigin(lc) == IsRes(lc) /\ \E o \in AllLcs : o.id = lc.res.id
+OriginOf(lc) == CHOOSE o \in AllLcs : o.id = lc.res.id
 
-ChainStrict == done /\ ~panic => \A lc \in Table : HasOrigin(lc) => KeyLess(Key(OriginOf(lc)), Key(lc))
-OriginStable == \A lc \in AllLcs : IsRes(lc) => \E o \in AllLcs : o.id = lc.res.id /\ o.start = lc.res.start /\ o.ecu = lc.ecu
+KeyLess(a, b) == a[1] < b[1] \/ (a[1] = b[1] /\ a[2] < b[2])
+KeyLeq(a, b) == ~KeyLess(b, a)
+
+KeyAsIs(lc) == IF IsRes(lc) /\ lc.start <= lc.res.start THEN <<lc.res.start, 1>> ELSE <<lc.start, 0>>
+RECURSIVE KeyChain(_)
+KeyChain(lc) == IF HasOrigin(lc)
+                THEN LET ko == KeyChain(OriginOf(lc)) IN
+                     (IF KeyLeq(<<lc.start, 0>>, ko) THEN <<ko[1], ko[2] + 1>> ELSE <<lc.start, 0>>)
+                ELSE KeyAsIs(lc)
+Key(lc) == IF ChainKey THEN KeyChain(lc) ELSE KeyAsIs(lc)
+
+\* all sequences over the table that are sorted by the key - one per tie-breaking of equal keys
+TPerms == {p \in [1..Cardinality(Table) -> Table] : \A i, j \in 1..Cardinality(Table) : i # j => p[i] # p[j]}
+Listings == {s \in TPerms : \A i, j \in DOMAIN s : i < j => KeyLeq(Key(s[i]), Key(s[j]))}
+Pos(s, lc) == CHOOSE k \in DOMAIN s : s[k] = lc
+
+RECURSIVE Ancestors(_)
+Ancestors(lc) == IF HasOrigin(lc) THEN {OriginOf(lc)} \cup Ancestors(OriginOf(lc)) ELSE {}
+
+AtEnd == done /\ ~panic
+ListingExists == AtEnd => Listings # {} /\ \A s \in Listings : {s[k] : k \in DOMAIN s} = Table
+KeyIsStartIfNoResume == AtEnd => \A lc \in Table : ~IsRes(lc) => Key(lc) = <<lc.start, 0>>
+ChainStrict == AtEnd => \A lc \in Table : \A o \in Ancestors(lc) \cap Table : KeyLess(Key(o), Key(lc))
+ResumedAfterOrigin == AtEnd => \A s \in Listings : \A lc \in Table : \A o \in Ancestors(lc) \cap Table : Pos(s, o) < Pos(s, lc)
+NoResumeByStart == AtEnd => ((\A lc \in Table : ~IsRes(lc)) =>
+                                \A s \in Listings : \A i, j \in DOMAIN s : i < j => s[i].start <= s[j].start)
+OriginStable == \A lc \in AllLcs : IsRes(lc) => \E o \in AllLcs : o.id = lc.res.id /\ o.start = lc.res.start /\ o.ecu = lc.ecu /\ o.id < lc.id
+\* a lifecycle that consists of control requests only is never a resume lifecycle (so an unlisted lifecycle never sits inside a chain)
+CtrlOnlyNeverResume == \A lc \in AllLcs : ~Listed(lc) => ~IsRes(lc)
+
+\* the deviation of the code as it is: the direct link of x to its origin o is not strict although x's key is what the code
+\* computes from o's START ESTIMATE - possible only when o is itself a resume lifecycle whose key was lifted above its start
+KfShape(x) == /\ HasOrigin(x) /\ ~KeyLess(KeyAsIs(OriginOf(x)), KeyAsIs(x))
+              /\ IsRes(OriginOf(x)) /\ KeyAsIs(OriginOf(x)) # <<OriginOf(x).start, 0>>
+\* ChainKey = FALSE: whatever breaks the strictness has that shape (a non-strict transitive link contains a non-strict direct one)
+AsIsOnlyKf == AtEnd => \A lc \in Table : (HasOrigin(lc) /\ ~KeyLess(KeyAsIs(OriginOf(lc)), KeyAsIs(lc))) => KfShape(lc)
+ContractOk == \A lc \in Table : \A o \in Ancestors(lc) \cap Table : KeyLess(Key(o), Key(lc))
+
+-----------------------------------------------------------------------------
+\* scenario emission: one line per terminal behaviour whose table holds a resume lifecycle (or two equal keys), with the
+\* predicted keys / links and the classes the driver and the vacuity guards count
+MinId == CHOOSE i \in {lc.id : lc \in Table} : \A lc \in Table : i <= lc.id
+Rel(i) == IF i = 0 THEN 0 ELSE (i + 1) - MinId
+Classes ==
+  (IF \E lc \in Table : HasOrigin(lc) /\ lc.start = lc.res.start THEN {"resume-start-equals-origin-start"} ELSE {})
+  \cup (IF \E lc \in Table : HasOrigin(lc) /\ lc.start < lc.res.start THEN {"resume-start-before-origin-start"} ELSE {})
+  \cup (IF \E lc \in Table : HasOrigin(lc) /\ lc.start > lc.res.start THEN {"resume-start-after-origin-start"} ELSE {})
+  \cup (IF \E lc \in Table : HasOrigin(lc) /\ IsRes(OriginOf(lc)) THEN {"resume-chain-of-three"} ELSE {})
+  \cup (IF \E lc \in Table : KfShape(lc) THEN {"chain-key-not-above-lifted-origin-key"} ELSE {})
+  \cup (IF \E a, b \in Table : a # b /\ Key(a) = Key(b) THEN {"equal-keys"} ELSE {})
+  \cup (IF \E a, b \in Table : a # b /\ a.ecu # b.ecu /\ IsRes(a) THEN {"resume-and-other-ecu"} ELSE {})
+  \cup (IF \E a, b \in Table : a # b /\ IsRes(a) /\ IsRes(b) /\ a.ecu # b.ecu THEN {"resume-chains-on-two-ecus"} ELSE {})
+  \cup (IF \E lc \in AllLcs : IsRes(lc) /\ ~Listed(OriginOf(lc)) THEN {"origin-not-listed"} ELSE {})
+Interesting == Table # {} /\ ((\E lc \in Table : IsRes(lc)) \/ (\E a, b \in Table : a # b /\ Key(a) = Key(b)))
+Emit == (AtEnd /\ Interesting) =>
+  PrintT(<<"SCN", ToJson([inputs |-> inputs,
+                          pred |-> {[id |-> Rel(lc.id), ecu |-> lc.ecu, st |-> lc.start, kst |-> Key(lc)[1], ksu |-> Key(lc)[2],
+                                     org |-> IF HasOrigin(lc) /\ Listed(OriginOf(lc)) THEN Rel(lc.res.id) ELSE 0] : lc \in Table},
+                          ok |-> ContractOk, classes |-> Classes])>>)
+
+\* state constraints of the bounded configs: the second ECU sends at most K messages (keeps two-ECU spaces small)
+OtherEcuAtMost(e, k) == Cardinality({i \in 1..Len(inputs) : inputs[i].ecu = e}) <= k
+BAtMost1 == OtherEcuAtMost("B", 1)
+\* quick tier: four messages of ECU A, or up to three messages one of which is of ECU B
+QuickSpace == OtherEcuAtMost("B", 1) /\ (Len(inputs) > 3 => OtherEcuAtMost("B", 0))
+BAtMost2 == OtherEcuAtMost("B", 2)
 =============================================================================
